@@ -200,6 +200,22 @@ FAULTS = [
     ("unexpected-end", ["def a = 1", "def b = 2", "def c = (a +"], 2, "syn",
      {}),
     ("missing-end", ["def a = 1", "do a; a"], 1, "syn", {}),
+    # a complete statement followed by a surplus token (missing ';', stray
+    # closer): the offending token is the surplus one
+    ("surplus-def", ["def a = 1", "def b = a + 1 def c = 2", "a"], 1, "syn",
+     {}),
+    ("surplus-bracket", ["def a = 1", "def b = [a] ]", "a"], 1, "syn", {}),
+    ("surplus-end", ["def a = 1", "do a end end", "a"], 1, "syn", {}),
+    # code that reaches the parser through parse/eval/s: the error still
+    # names the file given to this interpret call (only the file is pinned)
+    ("nested-parse", ["def a = 1", "def code = parse('def k = 1; k + zzz')",
+                      "eval(code)"], 2, "rt", {"file_only": True}),
+    ("nested-eval", ["def a = 1", "eval('1 + zzz')"], 1, "rt",
+     {"file_only": True}),
+    ("nested-parse-syntax", ["def a = 1", "parse('def = (')"], 1, "rt",
+     {"file_only": True}),
+    ("nested-s", ["def a = 1", "s('v: {zzz}')"], 1, "rt",
+     {"file_only": True}),
 ]
 STMT_SEPS = [" ", "\n", "\n\n", " # c\n", "\r\n", "\t", "  # x\n\n"]
 STMT_LEADS = ["", "\n", "# c\n\n"]
@@ -226,7 +242,8 @@ POSTOK = {"chain-add": 6, "chain-mul": 6, "nested-call": 6, "member": 4,
           "explicit-error": 0, "arity": 1, "index": 1, "not-boolean": 0,
           "deep": 5, "stray-break": 11, "stray-continue": 11,
           "stray-paren": 3, "missing-then": 2, "bad-def": 1,
-          "unexpected-end": 5, "missing-end": 3}
+          "unexpected-end": 5, "missing-end": 3, "surplus-def": 6,
+          "surplus-bracket": 6, "surplus-end": 3}
 
 
 # the token at which the failing construct begins: the statement says "the
@@ -238,7 +255,8 @@ STARTTOK = {"chain-add": 3, "chain-mul": 3, "nested-call": 5, "member": 3,
             "not-boolean": 1, "deep": 5, "stray-break": 11,
             "stray-continue": 11, "stray-paren": 3,
             "missing-then": 0, "bad-def": 0, "unexpected-end": 5,
-            "missing-end": 0}
+            "missing-end": 0, "surplus-def": 6, "surplus-bracket": 6,
+            "surplus-end": 3}
 
 
 def inner_layouts(name, stmt):
@@ -258,7 +276,11 @@ def inner_layouts(name, stmt):
     yield ["\n\n"] * n
 
 
-def run_fault(name, stmts, idx, kind, exp, seps, lead, inner=None):
+NAME2 = "other.ckl"
+
+
+def run_fault(name, stmts, idx, kind, exp, seps, lead, inner=None,
+              filename=None):
     """render statements with the given separators after the ';' (the faulty
     statement optionally spread over several lines) and run; returns list of
     (what, expected, observed) mismatches"""
@@ -287,7 +309,7 @@ def run_fault(name, stmts, idx, kind, exp, seps, lead, inner=None):
     bad = []
     try:
         try:
-            s.interp.interpret(text, NAME)
+            s.interp.interpret(text, filename or NAME)
             bad.append(("outcome", kind, "no error"))
             return text, bad
         except core.CklRuntimeError as e:
@@ -303,7 +325,7 @@ def run_fault(name, stmts, idx, kind, exp, seps, lead, inner=None):
     if got_kind != kind:
         bad.append(("outcome", kind, got_kind))
         return text, bad
-    want_file = exp.get("file", NAME)
+    want_file = exp.get("file", filename or NAME)
     want_line = exp.get("line", stmt_line[idx])
     pos = err.pos
     if pos is None or not hasattr(pos, "line"):
@@ -311,6 +333,12 @@ def run_fault(name, stmts, idx, kind, exp, seps, lead, inner=None):
         return text, bad
     if pos.filename != want_file:
         bad.append(("file", want_file, pos.filename))
+    if exp.get("file_only"):
+        for entry in getattr(err, "stacktrace", None) or []:
+            m = POS_RE.search(str(entry))
+            if m and m.group(1) != want_file:
+                bad.append(("stack-entry-file", want_file, m.group(1)))
+        return text, bad
     if pos.line != want_line and not (
             "line" not in exp and alt_line is not None
             and pos.line == alt_line):
@@ -326,7 +354,7 @@ def run_fault(name, stmts, idx, kind, exp, seps, lead, inner=None):
                 if isinstance(where, tuple):
                     wf, wl = where
                 else:
-                    wf, wl = NAME, stmt_line[where]
+                    wf, wl = filename or NAME, stmt_line[where]
                 if not m or not str(entry).startswith(fname + "("):
                     bad.append(("stack-entry", f"{fname}(...) {wf}:{wl}",
                                 str(entry)))
@@ -348,6 +376,15 @@ def explore_faults(chunk):
                 for seps in itertools.product(sepset, repeat=n):
                     text, bad = run_fault(name, stmts, idx, kind, exp, seps,
                                           lead, inner)
+                    if inner is None and lead == leads[0]:
+                        # the same text again under another file name in
+                        # the same process: nothing of the first run's
+                        # positions may stick
+                        t2, bad2 = run_fault(name, stmts, idx, kind, exp,
+                                             seps, lead, inner, filename=NAME2)
+                        agg.count("steps")
+                        bad = bad + [("second-name:" + w, a, b)
+                                     for w, a, b in bad2]
                     agg.count("steps")
                     agg.cls(("fault", name, inner is None, len(bad) == 0))
                     if agg.n["steps"] % 500 == 1:
@@ -375,6 +412,10 @@ def replay(case, verbose=False):
     name, stmts, idx, kind, exp = FAULTS[case["fault"]]
     text, bad = run_fault(name, stmts, idx, kind, exp, case["seps"],
                           case["lead"], case.get("inner"))
+    if case.get("inner") is None:
+        t2, bad2 = run_fault(name, stmts, idx, kind, exp, case["seps"],
+                             case["lead"], case.get("inner"), filename=NAME2)
+        bad = bad + bad2
     if verbose:
         print(repr(text))
         print(bad)
